@@ -8,6 +8,7 @@ import (
 	"strings"
 	"time"
 
+	"github.com/trajectoryjp/spatial_id_go/v4/common/object"
 	"github.com/trajectoryjp/spatial_id_go/v4/operated"
 
 	. "verif/harness/gen"
@@ -15,25 +16,118 @@ import (
 	w "verif/harness/wire"
 )
 
+const (
+	fnPlain    = "GetShiftingSpatialID"
+	fnLaws     = "ShiftLaws"
+	fnPlainOwn = "GetShiftingSpatialIDAfterOwnMutation" // args of fnPlain + the caller's prelude
+	fnLawsOwn  = "ShiftLawsAfterOwnMutation"            // args of fnLaws + the caller's prelude
+)
+
+// ownMutation: what a caller may do before asking for a shift — parse the same ID string itself and use ITS OWN object as a scratch
+// value through the exported mutators.  prelude = list of operations [SetX n] [SetY n] [SetZ n] [SetZoom h v] [ResetExtendedSpatialID s],
+// performed in order on the object the caller got from object.NewExtendedSpatialID(id).  Nothing of it may reach a later call that is
+// given only the string (the model never sees the object).  An operation of another shape is skipped here; the dispatch entry
+// answers bad-case for such a prelude (only shrinker candidates can have one).
+func ownMutation(id string, prelude w.Val) {
+	ops, ok := prelude.(w.List)
+	if !ok {
+		return
+	}
+	// every history case is self-contained: it starts with the caller's successful parse of an unrelated ID, so that a replay in a
+	// fresh process (and every shrinker candidate) runs the same history whatever earlier cases left behind in the library
+	if unrelated := "1/1/0/1/-2"; unrelated != id {
+		_, _ = object.NewExtendedSpatialID(unrelated)
+	} else {
+		_, _ = object.NewExtendedSpatialID("2/3/1/2/3")
+	}
+	own, _ := object.NewExtendedSpatialID(id) // on a parse error the library still hands out an object; the caller may touch it all the same
+	if own == nil {
+		return
+	}
+	num := func(v w.Val) (int64, bool) {
+		i, ok := v.(w.Int)
+		if !ok || !i.V.IsInt64() {
+			return 0, false
+		}
+		return i.V.Int64(), true
+	}
+	for _, o := range ops {
+		op, ok := o.(w.List)
+		if !ok || len(op) < 2 {
+			continue
+		}
+		name, ok := op[0].(w.Str)
+		if !ok {
+			continue
+		}
+		switch {
+		case len(op) == 2 && (name == "SetX" || name == "SetY" || name == "SetZ"):
+			if n, ok := num(op[1]); ok {
+				switch name {
+				case "SetX":
+					own.SetX(n)
+				case "SetY":
+					own.SetY(n)
+				default:
+					own.SetZ(n)
+				}
+			}
+		case len(op) == 3 && name == "SetZoom":
+			h, ok1 := num(op[1])
+			v, ok2 := num(op[2])
+			if ok1 && ok2 {
+				own.SetZoom(h, v)
+			}
+		case len(op) == 2 && name == "ResetExtendedSpatialID":
+			if s, ok := op[1].(w.Str); ok {
+				_ = own.ResetExtendedSpatialID(string(s))
+			}
+		}
+	}
+}
+
+func shiftOnce(a []w.Val) w.Val {
+	return w.S(operated.GetShiftingSpatialID(w.AsStr(a[0]), w.AsInt(a[1]), w.AsInt(a[2]), w.AsInt(a[3])))
+}
+
 func fnShift() *run.Fn {
-	return &run.Fn{Name: "GetShiftingSpatialID", Timeout: 2 * time.Second, Invoke: func(a []w.Val) w.Val {
-		return w.S(operated.GetShiftingSpatialID(w.AsStr(a[0]), w.AsInt(a[1]), w.AsInt(a[2]), w.AsInt(a[3])))
+	return &run.Fn{Name: fnPlain, Timeout: 2 * time.Second, Invoke: shiftOnce}
+}
+
+// the caller parses the ID itself, mutates its own object (a[4] = prelude), then asks for the shift of the same string
+func fnShiftOwn() *run.Fn {
+	return &run.Fn{Name: fnPlainOwn, Timeout: 2 * time.Second, Invoke: func(a []w.Val) w.Val {
+		ownMutation(w.AsStr(a[0]), a[4])
+		return shiftOnce(a[:4])
 	}}
 }
 
 // shift laws observed on the implementation: [s1; s2 = shift(s1,b); s12 = shift(id,a+b); back = shift(s1,-a); zero = shift(id,0)]
 func fnShiftLaws() *run.Fn {
-	return &run.Fn{Name: "ShiftLaws", Timeout: 2 * time.Second, Invoke: func(a []w.Val) w.Val {
+	return &run.Fn{Name: fnLaws, Timeout: 2 * time.Second, Invoke: func(a []w.Val) w.Val { return shiftLaws(a, func() {}) }}
+}
+
+// the same five calls; the caller's own parse-and-mutate (a[7] = prelude) precedes each of the three calls that are given the string id
+func fnShiftLawsOwn() *run.Fn {
+	return &run.Fn{Name: fnLawsOwn, Timeout: 2 * time.Second, Invoke: func(a []w.Val) w.Val {
 		id := w.AsStr(a[0])
-		x1, y1, v1 := w.AsInt(a[1]), w.AsInt(a[2]), w.AsInt(a[3])
-		x2, y2, v2 := w.AsInt(a[4]), w.AsInt(a[5]), w.AsInt(a[6])
-		s1 := operated.GetShiftingSpatialID(id, x1, y1, v1)
-		s2 := operated.GetShiftingSpatialID(s1, x2, y2, v2)
-		s12 := operated.GetShiftingSpatialID(id, x1+x2, y1+y2, v1+v2)
-		back := operated.GetShiftingSpatialID(s1, -x1, -y1, -v1)
-		zero := operated.GetShiftingSpatialID(id, 0, 0, 0)
-		return w.L(w.S(s1), w.S(s2), w.S(s12), w.S(back), w.S(zero))
+		return shiftLaws(a[:7], func() { ownMutation(id, a[7]) })
 	}}
+}
+
+func shiftLaws(a []w.Val, before func()) w.Val {
+	id := w.AsStr(a[0])
+	x1, y1, v1 := w.AsInt(a[1]), w.AsInt(a[2]), w.AsInt(a[3])
+	x2, y2, v2 := w.AsInt(a[4]), w.AsInt(a[5]), w.AsInt(a[6])
+	before()
+	s1 := operated.GetShiftingSpatialID(id, x1, y1, v1)
+	s2 := operated.GetShiftingSpatialID(s1, x2, y2, v2)
+	before()
+	s12 := operated.GetShiftingSpatialID(id, x1+x2, y1+y2, v1+v2)
+	back := operated.GetShiftingSpatialID(s1, -x1, -y1, -v1)
+	before()
+	zero := operated.GetShiftingSpatialID(id, 0, 0, 0)
+	return w.L(w.S(s1), w.S(s2), w.S(s12), w.S(back), w.S(zero))
 }
 
 type vox struct{ h, x, y, v, f int64 }
@@ -203,9 +297,102 @@ func shiftTags(p vox, dx, dy, dv int64) []string {
 	return t
 }
 
-func runShift(r *run.Runner, id string, dx, dy, dv int64, tags []string, triv bool) {
-	r.Run(run.Case{Prop: "C07", Fn: "GetShiftingSpatialID", Tags: tags, Trivial: triv,
-		Args: []w.Val{w.S(id), w.I(dx), w.I(dy), w.I(dv)}})
+// runShift issues one shift case; prelude != nil turns it into the history entry (the caller's parse-and-mutate precedes the call)
+func runShift(r *run.Runner, id string, dx, dy, dv int64, tags []string, triv bool, prelude w.Val) {
+	args := []w.Val{w.S(id), w.I(dx), w.I(dy), w.I(dv)}
+	fn := fnPlain
+	if prelude != nil {
+		fn, args = fnPlainOwn, append(args, prelude)
+	}
+	r.Run(run.Case{Prop: "C07", Fn: fn, Tags: tags, Trivial: triv, Args: args})
+}
+
+// genPrelude: 1..3 operations of a caller on its own parse of p's string — single setters with values on and around the grid of the
+// (current) zoom, a change of zooms, a reset to another valid ID / to the same ID / to a malformed string (rejected, object unchanged).
+// Values stay small enough that an implementation which wrongly starts from them still returns quickly in most cases.
+// Returns the wire prelude and its tags (each operation, and whether the caller's object ends up different from the parsed ID).
+func genPrelude(g *Gen, p vox, parsed bool) (w.Val, []string) {
+	cur := p
+	if !parsed {
+		cur = vox{} // the object of a rejected string is the zero value
+	}
+	start := cur
+	tags := []string{"caller-mutates-own-object"}
+	var ops w.List
+	hval := func(old int64) int64 {
+		ww := int64(1) << uint(cur.h) // cur.h stays in 0..35: parsed valid, the zero value, or g.Zoom()
+		switch g.Intn(7) {
+		case 0:
+			return 0
+		case 1:
+			return ww - 1
+		case 2:
+			return old + 1
+		case 3:
+			if old > 0 {
+				return old - 1
+			}
+			return 1
+		case 4:
+			return g.Pick(ww, -1, 2*ww+1) // outside the grid: a caller's scratch value need not be an index
+		}
+		return g.HIndex(cur.h)
+	}
+	n := 1 + g.Intn(3)
+	for k := 0; k < n; k++ {
+		switch g.Intn(8) {
+		case 0:
+			v := hval(cur.x)
+			cur.x = v
+			ops = append(ops, w.L(w.S("SetX"), w.I(v)))
+			tags = append(tags, "prelude:SetX")
+		case 1:
+			v := hval(cur.y)
+			cur.y = v
+			ops = append(ops, w.L(w.S("SetY"), w.I(v)))
+			tags = append(tags, "prelude:SetY")
+		case 2:
+			v := g.Pick(0, 1000, -1000, cur.f+1, cur.f-1, -cur.f-1, g.Int63n(1<<40)-(1<<39), g.VIndex(g.Zoom()))
+			cur.f = v
+			ops = append(ops, w.L(w.S("SetZ"), w.I(v)))
+			tags = append(tags, "prelude:SetZ")
+		case 3:
+			h, v := g.Zoom(), g.Zoom()
+			if g.Chance(0.3) {
+				h = cur.h // only the vertical zoom moves
+			} else if g.Chance(0.3) {
+				v = cur.v
+			}
+			cur.h, cur.v = h, v
+			ops = append(ops, w.L(w.S("SetZoom"), w.I(h), w.I(v)))
+			tags = append(tags, "prelude:SetZoom")
+		case 4, 5:
+			q := genVox(g)
+			cur = q
+			ops = append(ops, w.L(w.S("ResetExtendedSpatialID"), w.S(q.id())))
+			tags = append(tags, "prelude:Reset(other)")
+		case 6:
+			if g.Chance(0.5) && parsed {
+				cur = p
+				ops = append(ops, w.L(w.S("ResetExtendedSpatialID"), w.S(p.id())))
+				tags = append(tags, "prelude:Reset(same)")
+			} else {
+				ops = append(ops, w.L(w.S("ResetExtendedSpatialID"), w.S(g.Malformed())))
+				tags = append(tags, "prelude:Reset(malformed)")
+			}
+		case 7: // the demo's pattern: move the scratch object somewhere else entirely
+			z := g.Pick(1000, -1, 0, 1<<35)
+			cur.x, cur.y, cur.f = 0, 0, z
+			ops = append(ops, w.L(w.S("SetX"), w.I(0)), w.L(w.S("SetY"), w.I(0)), w.L(w.S("SetZ"), w.I(z)))
+			tags = append(tags, "prelude:SetX", "prelude:SetY", "prelude:SetZ")
+		}
+	}
+	if cur != start {
+		tags = append(tags, "prelude:object-changed")
+	} else {
+		tags = append(tags, "prelude:object-unchanged")
+	}
+	return ops, tags
 }
 
 // second shift of a law case: everything the invoker and the library add must stay inside int64
@@ -229,7 +416,7 @@ func sweep(r *run.Runner) {
 			for d := -4 * ww; d <= 4*ww; d++ {
 				for _, vf := range [][2]int64{{0, -1}, {35, 1<<35 - 1}} {
 					p := vox{h, x, ww - 1 - x, vf[0], vf[1]}
-					runShift(r, p.id(), d, -d, d, append(shiftTags(p, d, -d, d), "sweep"), d == 0)
+					runShift(r, p.id(), d, -d, d, append(shiftTags(p, d, -d, d), "sweep"), d == 0, nil)
 				}
 			}
 		}
@@ -239,7 +426,7 @@ func sweep(r *run.Runner) {
 					for dx := -4 * ww; dx <= 4*ww; dx++ {
 						for dy := -4 * ww; dy <= 4*ww; dy++ {
 							p := vox{h, x, y, 3, -8}
-							runShift(r, p.id(), dx, dy, 1, append(shiftTags(p, dx, dy, 1), "sweep"), false)
+							runShift(r, p.id(), dx, dy, 1, append(shiftTags(p, dx, dy, 1), "sweep"), false, nil)
 						}
 					}
 				}
@@ -254,7 +441,7 @@ func sweep(r *run.Runner) {
 func init() {
 	Scale["C07"] = 20000
 	Registry["C07"] = func(r *run.Runner, g *Gen, n int) {
-		r.Register(fnShift(), fnShiftLaws())
+		r.Register(fnShift(), fnShiftLaws(), fnShiftOwn(), fnShiftLawsOwn())
 		if n == 0 {
 			return
 		}
@@ -282,6 +469,13 @@ func init() {
 				tags = append(tags, shiftTags(p, dx, dy, dv)...)
 			}
 			triv := dx == 0 && dy == 0 && dv == 0
+			// a quarter of the cases are histories: the caller parses the same string itself and mutates its own object first
+			var prelude w.Val
+			if i%4 == 1 {
+				var pt []string
+				prelude, pt = genPrelude(g, p, !malformed)
+				tags = append(tags, pt...)
+			}
 			switch {
 			case i%3 == 0:
 				for dv == math.MinInt64 { // -dv must exist
@@ -289,12 +483,16 @@ func init() {
 				}
 				b1, b2 := hShift(g, p.h, ((p.x+dx)%(1<<uint(p.h))+(1<<uint(p.h)))%(1<<uint(p.h))), hShift(g, p.h, p.y)
 				b3 := secondV(g, p.f, dv)
-				r.Run(run.Case{Prop: "C07", Fn: "ShiftLaws", Tags: append(tags, "laws"), Trivial: triv && b1 == 0 && b2 == 0 && b3 == 0,
-					Args: []w.Val{w.S(id), w.I(dx), w.I(dy), w.I(dv), w.I(b1), w.I(b2), w.I(b3)}})
+				fn, args := fnLaws, []w.Val{w.S(id), w.I(dx), w.I(dy), w.I(dv), w.I(b1), w.I(b2), w.I(b3)}
+				if prelude != nil {
+					fn, args = fnLawsOwn, append(args, prelude)
+				}
+				r.Run(run.Case{Prop: "C07", Fn: fn, Tags: append(tags, "laws"), Trivial: triv && b1 == 0 && b2 == 0 && b3 == 0, Args: args})
 			case i%30 == 1 && !malformed:
 				// related consecutive calls: the same ID with another offset, the same offset at the neighbouring zoom, the identical call twice
-				runShift(r, id, dx, dy, dv, append(tags, "consecutive"), triv)
-				runShift(r, id, dx+1, dy, dv, append(tags, "consecutive"), false)
+				// (in a history case the caller's parse-and-mutate precedes each of the three calls on this ID)
+				runShift(r, id, dx, dy, dv, append(tags, "consecutive"), triv, prelude)
+				runShift(r, id, dx+1, dy, dv, append(tags, "consecutive"), false, prelude)
 				q := p
 				if q.h < 35 {
 					q.h++
@@ -306,11 +504,11 @@ func init() {
 				if d2y > 4<<uint(q.h) || d2y < -(4<<uint(q.h)) {
 					d2y = 0
 				}
-				runShift(r, q.id(), d2x, d2y, dv, append(shiftTags(q, d2x, d2y, dv), "consecutive"), false)
-				runShift(r, id, dx, dy, dv, append(tags, "consecutive"), triv)
+				runShift(r, q.id(), d2x, d2y, dv, append(shiftTags(q, d2x, d2y, dv), "consecutive"), false, nil)
+				runShift(r, id, dx, dy, dv, append(tags, "consecutive"), triv, prelude)
 				i += 3
 			default:
-				runShift(r, id, dx, dy, dv, tags, triv)
+				runShift(r, id, dx, dy, dv, tags, triv, prelude)
 			}
 		}
 	}
